@@ -65,7 +65,7 @@ Print Assumptions C26_add_success.
 Theorem C26_update_success : forall st a n src ev st',
   s_step st (OUpdate a n src) = (RUnit, ev, st') ->
   exists old, dep st a n = Some old /\ check_src n src = None /\
-              compat (s_shape old) (s_shape src) = true /\ ev = [EvUpdated a n src] /\
+              src_compat old src = true /\ ev = [EvUpdated a n src] /\
               dep st' = upd2 (dep st) a n (Some src).
 Proof. exact update_success. Qed.
 Print Assumptions C26_update_success.
@@ -87,15 +87,20 @@ Print Assumptions C26_try_update_never_fails.
 (* ... remove is refused for contracts declaring enums, and otherwise removes exactly that
    contract (nil when there is none). *)
 Theorem C26_remove_enum_refused : forall st a n old,
-  dep st a n = Some old -> has_enum (s_shape old) = true ->
+  dep st a n = Some old -> src_has_enum old = true ->
   s_step st (ORemove a n) = (RFail FRemoval, [], st).
 Proof. exact remove_enum_refused. Qed.
 Print Assumptions C26_remove_enum_refused.
+(* the test is code-shaped (loop over the nested composite declarations in source order, as
+   containsEnums); it holds exactly when SOME nested declaration is an enum, wherever it stands *)
+Theorem C26_has_enum_iff_declares_enum : forall s, src_has_enum s = true <-> declares_enum s.
+Proof. exact has_enum_iff. Qed.
+Print Assumptions C26_has_enum_iff_declares_enum.
 Theorem C26_remove_semantics : forall st a n,
   match dep st a n with
   | None => s_step st (ORemove a n) = (RNone, [], st)
   | Some old =>
-      has_enum (s_shape old) = false ->
+      src_has_enum old = false ->
       exists st', s_step st (ORemove a n) = (RCode old, [EvRemoved a n old], st') /\
                   dep st' = upd2 (dep st) a n None
   end.
@@ -133,15 +138,17 @@ Proof. exact reads_change_nothing. Qed.
 Print Assumptions C26_reads_change_nothing.
 
 (* ---------------------------------------------------------------- non-vacuity *)
+Definition esrc (n v : Z) : source :=
+  mkSrc SValid n 0 [mkD KSIface 4 0; mkD KEnum 1 1; mkD KStruct 2 0; mkD KEvent 3 0] v.
 Definition ex_history : list (list op) :=
-  [[OAdd 1 0 (vsrc 0 0 1); ONames 1; OGet 1 0; OAdd 2 1 (vsrc 1 4 2)];
+  [[OAdd 1 0 (vsrc 0 0 1); ONames 1; OGet 1 0; OAdd 2 1 (esrc 1 2)];
    [OBorrow 1 0; OUpdate 1 0 (vsrc 0 3 3); OTryUpdate 1 0 (vsrc 0 0 4); OGet 1 0;
-    OTryUpdate 1 2 (vsrc 2 0 5); OTryUpdate 1 0 (mkSrc STypeError 0 3 6)];
+    OTryUpdate 1 2 (vsrc 2 0 5); OTryUpdate 1 0 (mkSrc STypeError 0 3 [] 6)];
    [OUpdate 1 0 (vsrc 0 3 7); OAdd 1 1 (vsrc 1 0 8); OPanic];
    [OGet 1 0; ONames 1; ORemove 2 1];
    [ORemove 1 0; OAdd 1 0 (vsrc 0 0 9)];
    [ORemove 1 0; ONames 1; OBorrow 1 0];
-   [OAdd 1 0 (mkSrc SInitPanics 0 0 10)];
+   [OAdd 1 0 (mkSrc SInitPanics 0 0 [] 10)];
    [OAdd 1 0 (vsrc 1 0 11)];
    [ONames 1; ONames 2; OGet 2 1; OBorrow 2 1]].
 
@@ -149,7 +156,7 @@ Example C26_ex_guard : ok_hist Interp s0 ex_history = true /\ ok_hist VM s0 ex_h
 Proof. vm_compute. auto. Qed.
 
 Example C26_ex_run : run_code Interp ex_history =
-  [([RUnit; RNames [0]; RCode (vsrc 0 0 1); RUnit], [EvAdded 1 0 (vsrc 0 0 1); EvAdded 2 1 (vsrc 1 4 2)]);
+  [([RUnit; RNames [0]; RCode (vsrc 0 0 1); RUnit], [EvAdded 1 0 (vsrc 0 0 1); EvAdded 2 1 (esrc 1 2)]);
    ([RBool true; RUnit; RBool false; RCode (vsrc 0 3 3); RBool false; RBool false], [EvUpdated 1 0 (vsrc 0 3 3)]);
    ([RUnit; RUnit; RFail FPanic], [EvUpdated 1 0 (vsrc 0 3 7); EvAdded 1 1 (vsrc 1 0 8)]);
    ([RCode (vsrc 0 3 3); RNames [0]; RFail FRemoval], []);
@@ -157,7 +164,7 @@ Example C26_ex_run : run_code Interp ex_history =
    ([RCode (vsrc 0 3 3); RNames []; RBool false], [EvRemoved 1 0 (vsrc 0 3 3)]);
    ([RFail FPanic], []);
    ([RFail FUser], []);
-   ([RNames []; RNames [1]; RCode (vsrc 1 4 2); RBool true], [])].
+   ([RNames []; RNames [1]; RCode (esrc 1 2); RBool true], [])].
 Proof. vm_compute. reflexivity. Qed.
 
 Example C26_ex_refines : run_code VM ex_history = run_spec ex_history.
